@@ -297,7 +297,35 @@ func TestVF_C11_Connections(t *testing.T) {
 	})
 }
 
+// C13d: several connections that share one client Config (and its session cache) and a few server
+// Configs run their handshakes at the same time: state shared between connections (caches, pools,
+// lazily initialised configuration fields) must not make any of them fail. Built with -race.
+func TestVF_C13_SharedConfig(t *testing.T) {
+	rec := vfRec("C13", "C13d-shared-config", "2..8 honest handshakes at a time between one client Config and up to three server Configs, all sharing session caches of capacity 1..3, 4..14 connections per case; built with -race; oracle: every handshake succeeds, no race report; non-trivial = at least two in parallel; distinct = the case")
+	vfRapid(t, rec, "parallel", vfN(40, 600), func(t *rapid.T) {
+		c := c11dCase{CliCap: rapid.IntRange(1, 3).Draw(t, "cc"), SrvCap: rapid.IntRange(1, 3).Draw(t, "sc"), Suite: rapid.SampledFrom(vfSuites).Draw(t, "suite"),
+			Conns: rapid.SliceOfN(rapid.IntRange(0, 2), 4, 14).Draw(t, "conns"), Parallel: rapid.SampledFrom([]int{2, 4, 8}).Draw(t, "par")}
+		sig, msg := c11dRun(c)
+		if sig != "" {
+			rec.Fail(t, sig, c, "%s", msg)
+		}
+		rec.Eval(true, c, fmt.Sprintf("parallel:%d", c.Parallel))
+	})
+}
+
 func init() {
+	vfRegisterReplay("C13d-shared-config", func(raw json.RawMessage) error {
+		var c c11dCase
+		if err := json.Unmarshal(raw, &c); err != nil {
+			return err
+		}
+		for i := 0; i < 30; i++ {
+			if sig, msg := c11dRun(c); sig != "" {
+				return fmt.Errorf("%s: %s", sig, msg)
+			}
+		}
+		return nil
+	})
 	vfRegisterReplay("C11c-linearizable", func(raw json.RawMessage) error {
 		var c c11cCase
 		if err := json.Unmarshal(raw, &c); err != nil {
